@@ -202,7 +202,20 @@ def connection_tasks(repo):
             d["kind"] = "consume"
             d["handler"] = h.cls.short if isinstance(h, Obj) and h.cls is not None else None
             if isinstance(h, Obj):
-                d["callbacks"] = sorted({v.fi.name for v in h.attrs.values() if isinstance(v, BoundMethod) and v.obj is spa})
+                # bound methods of the spa the handler holds - directly or inside a small collaborator object (a record of
+                # callbacks, a lifetime helper)
+                found, stack, seen_ = set(), [(h, 0)], set()
+                while stack:
+                    o_, dep = stack.pop()
+                    if id(o_) in seen_:
+                        continue
+                    seen_.add(id(o_))
+                    for v in o_.attrs.values():
+                        if isinstance(v, BoundMethod) and v.obj is spa:
+                            found.add(v.fi.name)
+                        elif isinstance(v, Obj) and v is not spa and dep < 2:
+                            stack.append((v, dep + 1))
+                d["callbacks"] = sorted(found)
         elif isinstance(coro, Obj) and coro.attrs.get("kind") == "coroutine":
             d["kind"] = "coroutine"
             d["coroutine"] = coro.attrs["method"]
